@@ -41,6 +41,9 @@ class Ctx:
         self.pos = 0
         self.pending = []
         self.model = None  # a model known to satisfy the whole pc (or None)
+        self.prefix_model = None  # model of the pc at the end of the replayed decision prefix
+        self.prefix_len = -1
+        self.uses_fp = False
         self.queries = 0
         self.solver_time = 0.0
         self.query_timeout_ms = 60_000
@@ -52,7 +55,7 @@ class Ctx:
 
     # -- solver ---------------------------------------------------------------------------------
     def _solver(self):
-        if self.logic == "bv":
+        if self.logic == "bv" and not self.uses_fp:
             s = z3.SolverFor("QF_BV")
         else:
             s = z3.Solver()
@@ -125,7 +128,7 @@ class Ctx:
             d = self.decisions[self.pos][0]
             self.pos += 1
             self.pc.append(cond if d else z3.Not(cond))
-            self.model = None
+            self.model = self.prefix_model if self.pos == self.prefix_len else None
             return d
         # new decision
         m = self.model
@@ -171,7 +174,7 @@ class Ctx:
                 d, v = self.decisions[self.pos]
                 self.pos += 1
                 self.pc.append((e == v) if d else (e != v))
-                self.model = None
+                self.model = self.prefix_model if self.pos == self.prefix_len else None
                 if d:
                     return v
                 continue
@@ -676,12 +679,12 @@ class SymInt:
         return lift(o)._divmod(self)
 
     def __truediv__(self, o):
-        from .frac import SymFrac
-        return SymFrac(self, o)
+        from .frac import true_div
+        return true_div(self, o)
 
     def __rtruediv__(self, o):
-        from .frac import SymFrac
-        return SymFrac(o, self)
+        from .frac import true_div
+        return true_div(o, self)
 
     def __pow__(self, k, mod=None):
         if isinstance(k, int) and mod is None and 0 <= k <= 8:
